@@ -134,4 +134,815 @@ theorem iterOps_isCursor {m : Entries} (hs : Sorted m) : IsCursor (iterOps m) (F
 theorem iterOps_starts (s : Option Range) {m : Entries} (hs : Sorted m) :
     Starts (iterOps m) (FwdAt m) (Iter.new s) (m.filter (fun e => inSlice s e.1)) := first_fwd s hs
 
+/-! ### The join over list cursors: invariants of the algorithm's control state -/
+
+abbrev LJ := Join Entries Entries
+
+def Cur (j : LJ) : Prop :=
+  match j.origin with
+  | .mem => ∃ e la', j.mem = e :: la' ∧ j.key = e.1 ∧ j.value = e.2 ∧ ∀ x ∈ j.back, ltB e.1 x.1 = true
+  | .back => ∃ e lb', j.back = e :: lb' ∧ j.key = e.1 ∧ j.value = e.2 ∧ ∀ x ∈ j.mem, ltB e.1 x.1 = true
+  | .both => ∃ e la' vb lb', j.mem = e :: la' ∧ j.back = (e.1, vb) :: lb' ∧ j.key = e.1 ∧ j.value = e.2
+
+def GhostM (j : LJ) : Prop :=
+  j.origin = .mem ∧ j.mem = [] ∧ j.nextMemEnd = false ∧ j.key = [] ∧ j.value = []
+def GhostB (j : LJ) : Prop :=
+  j.origin = .back ∧ j.back = [] ∧ j.nextBackEnd = false ∧ j.key = [] ∧ j.value = []
+
+/-- Flags are sound (a set flag means that side is exhausted) and both sides are sorted. -/
+structure WFJ (j : LJ) : Prop where
+  fm : j.nextMemEnd = true → j.mem = []
+  fb : j.nextBackEnd = true → j.back = []
+  sm : Sorted j.mem
+  sb : Sorted j.back
+
+def DoneSt (j : LJ) : Prop :=
+  j.mem = [] ∧ j.back = [] ∧ j.key = [] ∧ j.value = [] ∧
+  ((j.nextMemEnd = true ∧ j.nextBackEnd = true) ∨ (j.nextMemEnd = false ∧ j.nextBackEnd = false ∧ j.origin = .mem))
+
+def mu (j : LJ) : Nat :=
+  j.mem.length + j.back.length + (if j.nextMemEnd then 0 else 1) + (if j.nextBackEnd then 0 else 1)
+
+def out (j : LJ) : Entries := merge j.mem j.back
+
+def Mid (j : LJ) : Prop := Cur j ∨ GhostM j ∨ GhostB j
+
+theorem key_ne_nil_of_gt {a b : Key} (h : ltB a b = true) : b ≠ [] := by
+  rintro rfl; rw [nil_not_gt] at h; cases h
+
+theorem cmpB_nil_left {b : Key} (h : b ≠ []) : cmpB [] b = .lt := by cases b <;> simp_all [cmpB]
+theorem cmpB_nil_right {a : Key} (h : a ≠ []) : cmpB a [] = .gt := by cases a <;> simp_all [cmpB]
+
+/-- The decision half on list cursors. -/
+theorem choose_spec (j : LJ) (hw : WFJ j)
+    (hcmp : j.nextMemEnd = false → j.nextBackEnd = false →
+      (j.mem ≠ [] → headKey j.mem ≠ []) ∧ (j.back ≠ [] → headKey j.back ≠ []) ∧ ¬ (j.mem = [] ∧ j.back = [])) :
+    ((Join.choose listOps listOps j).2 = false →
+      DoneSt (Join.choose listOps listOps j).1 ∧ j.mem = [] ∧ j.back = []) ∧
+    ((Join.choose listOps listOps j).2 = true →
+      WFJ (Join.choose listOps listOps j).1 ∧ Mid (Join.choose listOps listOps j).1 ∧
+      (Join.choose listOps listOps j).1.mem = j.mem ∧ (Join.choose listOps listOps j).1.back = j.back ∧
+      (Join.choose listOps listOps j).1.nextMemEnd = j.nextMemEnd ∧
+      (Join.choose listOps listOps j).1.nextBackEnd = j.nextBackEnd) := by
+  obtain ⟨mem, back, key, value, origin, nme, nbe⟩ := j
+  have ⟨fm, fb, sm, sb⟩ := hw
+  simp only at fm fb sm sb hcmp
+  cases nbe with
+  | true =>
+    have hb0 := fb rfl; subst hb0
+    cases nme with
+    | true =>
+      have hm0 := fm rfl; subst hm0
+      simp [Join.choose, DoneSt]
+    | false =>
+      simp only [Join.choose, listOps, if_true, Bool.false_eq_true, if_false]
+      refine ⟨by simp, fun _ => ⟨⟨by simp, by simp, sm, sb⟩, ?_, by simp⟩⟩
+      cases mem with
+      | nil => exact .inr (.inl ⟨rfl, rfl, rfl, rfl, rfl⟩)
+      | cons e la' => exact .inl ⟨e, la', rfl, rfl, rfl, by simp⟩
+  | false =>
+    cases nme with
+    | true =>
+      have hm0 := fm rfl; subst hm0
+      simp only [Join.choose, listOps, Bool.false_eq_true, if_false, if_true]
+      refine ⟨by simp, fun _ => ⟨⟨by simp, by simp, sm, sb⟩, ?_, by simp⟩⟩
+      cases back with
+      | nil => exact .inr (.inr ⟨rfl, rfl, rfl, rfl, rfl⟩)
+      | cons e lb' => exact .inl ⟨e, lb', rfl, rfl, rfl, by simp⟩
+    | false =>
+      obtain ⟨hm, hb, hne⟩ := hcmp rfl rfl
+      simp only [Join.choose, listOps, Bool.false_eq_true, if_false]
+      cases mem with
+      | nil =>
+        cases back with
+        | nil => exact absurd ⟨rfl, rfl⟩ hne
+        | cons b lb' =>
+          have hb' : b.1 ≠ [] := by simpa [headKey] using hb
+          simp only [headKey, headVal, cmpB_nil_left hb']
+          refine ⟨by simp, fun _ => ⟨⟨by simp, by simp, sm, sb⟩, ?_, by simp⟩⟩
+          exact .inr (.inl ⟨rfl, rfl, rfl, rfl, rfl⟩)
+      | cons a la' =>
+        cases back with
+        | nil =>
+          have ha' : a.1 ≠ [] := by simpa [headKey] using hm
+          simp only [headKey, headVal, cmpB_nil_right ha']
+          refine ⟨by simp, fun _ => ⟨⟨by simp, by simp, sm, sb⟩, ?_, by simp⟩⟩
+          exact .inr (.inr ⟨rfl, rfl, rfl, rfl, rfl⟩)
+        | cons b lb' =>
+          simp only [headKey, headVal]
+          cases hc : cmpB a.1 b.1 with
+          | lt =>
+            refine ⟨by simp, fun _ => ⟨⟨by simp, by simp, sm, sb⟩, ?_, by simp⟩⟩
+            refine .inl ⟨a, la', rfl, rfl, rfl, ?_⟩
+            intro x hx
+            simp only [List.mem_cons] at hx
+            rcases hx with rfl | hx
+            · exact ltB_iff.mpr hc
+            · exact ltB_trans (ltB_iff.mpr hc) ((sorted_cons.mp sb).1 x hx)
+          | eq =>
+            refine ⟨by simp, fun _ => ⟨⟨by simp, by simp, sm, sb⟩, ?_, by simp⟩⟩
+            have hk := cmpB_eq_iff.mp hc
+            refine .inl ⟨a, la', b.2, lb', rfl, ?_, rfl, rfl⟩
+            show b :: lb' = (a.1, b.2) :: lb'
+            rw [hk]
+          | gt =>
+            refine ⟨by simp, fun _ => ⟨⟨by simp, by simp, sm, sb⟩, ?_, by simp⟩⟩
+            refine .inl ⟨b, lb', rfl, rfl, rfl, ?_⟩
+            intro x hx
+            have hlt := ltB_iff.mpr (cmpB_gt_iff_lt.mp hc)
+            simp only [List.mem_cons] at hx
+            rcases hx with rfl | hx
+            · exact hlt
+            · exact ltB_trans hlt ((sorted_cons.mp sm).1 x hx)
+
+
+theorem headKey_ne_nil_of_lt {e : Key × Val} {l : Entries} (h : ∀ x ∈ l, ltB e.1 x.1 = true) (hl : l ≠ []) :
+    headKey l ≠ [] := by
+  cases l with
+  | nil => exact absurd rfl hl
+  | cons a r => exact key_ne_nil_of_gt (h a (by simp))
+
+theorem mu_congr {j j' : LJ} (h1 : j'.mem = j.mem) (h2 : j'.back = j.back) (h3 : j'.nextMemEnd = j.nextMemEnd)
+    (h4 : j'.nextBackEnd = j.nextBackEnd) : mu j' = mu j := by
+  simp [mu, h1, h2, h3, h4]
+
+/-- What the advancing half establishes, from a proper current entry. -/
+theorem advance_cur (j : LJ) (hw : WFJ j) (hc : Cur j) :
+    let j' := Join.advance listOps listOps j
+    WFJ j' ∧ mu j' < mu j ∧ out j = (j.key, j.value) :: out j' ∧
+    (j'.nextMemEnd = false → j'.nextBackEnd = false →
+      (j'.mem ≠ [] → headKey j'.mem ≠ []) ∧ (j'.back ≠ [] → headKey j'.back ≠ []) ∧ ¬ (j'.mem = [] ∧ j'.back = [])) := by
+  obtain ⟨mem, back, key, value, origin, nme, nbe⟩ := j
+  have ⟨fm, fb, sm, sb⟩ := hw
+  simp only at fm fb sm sb
+  cases origin with
+  | mem =>
+    obtain ⟨e, la', h1, h2, h3, h4⟩ := hc
+    simp only at h1 h2 h3 h4
+    subst h1
+    have hn : nme = false := by cases nme <;> simp_all
+    subst hn
+    have hs := sorted_cons.mp sm
+    simp only [Join.advance, listOps, true_or, and_self, if_true, List.tail_cons, Bool.not_not, reduceCtorEq, or_self,
+      false_and, if_false]
+    refine ⟨⟨by simp, fb, hs.2, sb⟩, ?_, ?_, ?_⟩
+    · simp only [mu, List.length_cons]; split <;> simp <;> omega
+    · simp only [out]; rw [merge_cons_lt h4, h2, h3]
+    · intro hm' _
+      simp only [List.isEmpty_eq_false_iff] at hm'
+      exact ⟨fun _ => headKey_ne_nil_of_lt hs.1 hm', fun hb => headKey_ne_nil_of_lt h4 hb, fun h => hm' h.1⟩
+  | back =>
+    obtain ⟨e, lb', h1, h2, h3, h4⟩ := hc
+    simp only at h1 h2 h3 h4
+    subst h1
+    have hn : nbe = false := by cases nbe <;> simp_all
+    subst hn
+    have hs := sorted_cons.mp sb
+    simp only [Join.advance, listOps, reduceCtorEq, or_self, false_and, if_false, true_or, and_self, if_true,
+      List.tail_cons, Bool.not_not]
+    refine ⟨⟨fm, by simp, sm, hs.2⟩, ?_, ?_, ?_⟩
+    · simp only [mu, List.length_cons]; split <;> split <;> simp <;> omega
+    · simp only [out]; rw [merge_cons_gt h4, h2, h3]
+    · intro _ hb'
+      simp only [List.isEmpty_eq_false_iff] at hb'
+      exact ⟨fun hm => headKey_ne_nil_of_lt h4 hm, fun _ => headKey_ne_nil_of_lt hs.1 hb', fun h => hb' h.2⟩
+  | both =>
+    obtain ⟨e, la', vb, lb', h1, h2, h3, h4⟩ := hc
+    simp only at h1 h2 h3 h4
+    subst h1; subst h2
+    have hn : nme = false := by cases nme <;> simp_all
+    have hn2 : nbe = false := by cases nbe <;> simp_all
+    subst hn; subst hn2
+    have hs := sorted_cons.mp sm
+    have hs2 := sorted_cons.mp sb
+    simp only [Join.advance, listOps, or_true, and_self, if_true, List.tail_cons, Bool.not_not]
+    refine ⟨⟨by simp, by simp, hs.2, hs2.2⟩, ?_, ?_, ?_⟩
+    · simp only [mu, List.length_cons]; split <;> split <;> simp <;> omega
+    · simp only [out]; rw [merge_cons_eq, h3, h4]
+    · intro hm' hb'
+      simp only [List.isEmpty_eq_false_iff] at hm' hb'
+      exact ⟨fun _ => headKey_ne_nil_of_lt hs.1 hm', fun _ => headKey_ne_nil_of_lt (e := (e.1, vb)) hs2.1 hb',
+        fun h => hm' h.1⟩
+
+/-- From a ghost entry (nil key of an exhausted side whose flag was never set) the advancing half only sets
+the missing flag. -/
+theorem advance_ghost (j : LJ) (hw : WFJ j) (hg : GhostM j ∨ GhostB j) :
+    let j' := Join.advance listOps listOps j
+    WFJ j' ∧ mu j' < mu j ∧ out j' = out j ∧ j.value = [] ∧ (j'.nextMemEnd = true ∨ j'.nextBackEnd = true) := by
+  obtain ⟨mem, back, key, value, origin, nme, nbe⟩ := j
+  have ⟨fm, fb, sm, sb⟩ := hw
+  simp only at fm fb sm sb
+  rcases hg with ⟨h1, h2, h3, h4, h5⟩ | ⟨h1, h2, h3, h4, h5⟩
+  · simp only at h1 h2 h3 h4 h5
+    subst h1; subst h2; subst h3; subst h5
+    intro j'
+    have e : j' = ({ mem := [], back := back, key := key, value := [], origin := Origin.mem, nextMemEnd := true, nextBackEnd := nbe } : LJ) := by simp [j', Join.advance, listOps]
+    rw [e]
+    refine ⟨⟨fun _ => rfl, fb, sm, sb⟩, ?_, rfl, rfl, .inl rfl⟩
+    simp [mu]
+  · simp only at h1 h2 h3 h4 h5
+    subst h1; subst h2; subst h3; subst h5
+    intro j'
+    have e : j' = ({ mem := mem, back := [], key := key, value := [], origin := Origin.back, nextMemEnd := nme, nextBackEnd := true } : LJ) := by simp [j', Join.advance, listOps]
+    rw [e]
+    refine ⟨⟨fm, fun _ => rfl, sm, sb⟩, ?_, rfl, rfl, .inr rfl⟩
+    simp [mu]
+
+
+theorem cur_pair (j : LJ) : (j.key, j.value) = (j.key, j.value) := rfl
+
+theorem next0_cur (j : LJ) (hw : WFJ j) (hc : Cur j) :
+    ((Join.next0 listOps listOps j).2 = false →
+      DoneSt (Join.next0 listOps listOps j).1 ∧ out j = [(j.key, j.value)]) ∧
+    ((Join.next0 listOps listOps j).2 = true →
+      WFJ (Join.next0 listOps listOps j).1 ∧ Mid (Join.next0 listOps listOps j).1 ∧
+      mu (Join.next0 listOps listOps j).1 < mu j ∧ out j = (j.key, j.value) :: out (Join.next0 listOps listOps j).1) := by
+  obtain ⟨h1, h2, h3, h4⟩ := advance_cur j hw hc
+  have hch := choose_spec (Join.advance listOps listOps j) h1 h4
+  unfold Join.next0
+  refine ⟨fun hf => ?_, fun ht => ?_⟩
+  · obtain ⟨d, e1, e2⟩ := hch.1 hf
+    refine ⟨d, ?_⟩
+    rw [h3]; simp [out, e1, e2, merge]
+  · obtain ⟨w, m, e1, e2, e3, e4⟩ := hch.2 ht
+    refine ⟨w, m, ?_, ?_⟩
+    · rw [mu_congr e1 e2 e3 e4]; exact h2
+    · rw [h3]; simp [out, e1, e2]
+
+theorem next0_ghost (j : LJ) (hw : WFJ j) (hg : GhostM j ∨ GhostB j) :
+    j.value = [] ∧
+    ((Join.next0 listOps listOps j).2 = false → DoneSt (Join.next0 listOps listOps j).1 ∧ out j = []) ∧
+    ((Join.next0 listOps listOps j).2 = true →
+      WFJ (Join.next0 listOps listOps j).1 ∧ Mid (Join.next0 listOps listOps j).1 ∧
+      mu (Join.next0 listOps listOps j).1 < mu j ∧ out j = out (Join.next0 listOps listOps j).1) := by
+  obtain ⟨h1, h2, h3, h4, h5⟩ := advance_ghost j hw hg
+  have hch := choose_spec (Join.advance listOps listOps j) h1 (by
+    intro a b; rcases h5 with h | h
+    · rw [h] at a; cases a
+    · rw [h] at b; cases b)
+  unfold Join.next0
+  refine ⟨h4, fun hf => ?_, fun ht => ?_⟩
+  · obtain ⟨d, e1, e2⟩ := hch.1 hf
+    refine ⟨d, ?_⟩
+    rw [← h3]; simp [out, e1, e2, merge]
+  · obtain ⟨w, m, e1, e2, e3, e4⟩ := hch.2 ht
+    refine ⟨w, m, ?_, ?_⟩
+    · rw [mu_congr e1 e2 e3 e4]; exact h2
+    · rw [← h3]; simp [out, e1, e2]
+
+theorem mid_mu_pos (j : LJ) (hm : Mid j) : 1 ≤ mu j := by
+  unfold mu
+  rcases hm with hc | hg | hg
+  · unfold Cur at hc
+    split at hc
+    · obtain ⟨e, la', h, _⟩ := hc; simp [h]; omega
+    · obtain ⟨e, la', h, _⟩ := hc; simp [h]; omega
+    · obtain ⟨e, la', _, _, h, _⟩ := hc; simp [h]; omega
+  · simp [hg.2.2.1]; omega
+  · simp [hg.2.2.1]
+
+theorem cur_out_head (j : LJ) (hc : Cur j) : ∃ t, out j = (j.key, j.value) :: t := by
+  unfold Cur at hc
+  split at hc
+  · obtain ⟨e, la', h1, h2, h3, h4⟩ := hc
+    exact ⟨merge la' j.back, by rw [out, h1, merge_cons_lt h4, h2, h3]⟩
+  · obtain ⟨e, lb', h1, h2, h3, h4⟩ := hc
+    exact ⟨merge j.mem lb', by rw [out, h1, merge_cons_gt h4, h2, h3]⟩
+  · obtain ⟨e, la', vb, lb', h1, h2, h3, h4⟩ := hc
+    exact ⟨merge la' lb', by rw [out, h1, h2, merge_cons_eq, h3, h4]⟩
+
+theorem ghost_value (j : LJ) (hg : GhostM j ∨ GhostB j) : j.value = [] := by
+  rcases hg with h | h <;> exact h.2.2.2.2
+
+theorem live_cons_empty (k : Key) (l : Entries) : live ((k, []) :: l) = live l := by simp [live]
+theorem live_cons_live (k : Key) (v : Val) (l : Entries) (h : v ≠ []) : live ((k, v) :: l) = (k, v) :: live l := by
+  cases v with
+  | nil => exact absurd rfl h
+  | cons b r => simp [live]
+
+/-- The skip-empty-values loop: with fuel ≥ μ it ends on the first entry with a non-empty value, or at the end. -/
+theorem skip_spec (n : Nat) (j : LJ) (hw : WFJ j) (hm : Mid j) (hn : mu j ≤ n) :
+    ((Join.skip listOps listOps n j).2 = true →
+      WFJ (Join.skip listOps listOps n j).1 ∧ Cur (Join.skip listOps listOps n j).1 ∧
+      (Join.skip listOps listOps n j).1.value ≠ [] ∧
+      live (out j) = live (out (Join.skip listOps listOps n j).1) ∧ mu (Join.skip listOps listOps n j).1 ≤ mu j) ∧
+    ((Join.skip listOps listOps n j).2 = false →
+      DoneSt (Join.skip listOps listOps n j).1 ∧ live (out j) = []) := by
+  induction n generalizing j with
+  | zero => have := mid_mu_pos j hm; omega
+  | succ n ih =>
+    unfold Join.skip
+    cases hv : j.value with
+    | cons b r =>
+      simp only [List.isEmpty_cons, Bool.false_eq_true, if_false]
+      refine ⟨fun _ => ⟨hw, ?_, by simp [hv], by simp, Nat.le_refl _⟩, fun h => (by cases h)⟩
+      rcases hm with hc | hg
+      · exact hc
+      · rw [ghost_value j hg] at hv; cases hv
+    | nil =>
+      simp only [List.isEmpty_nil, if_true]
+      -- one internal next(), whose emitted entry (if any) has an empty value
+      have hstep : ((Join.next0 listOps listOps j).2 = false →
+            DoneSt (Join.next0 listOps listOps j).1 ∧ live (out j) = []) ∧
+          ((Join.next0 listOps listOps j).2 = true →
+            WFJ (Join.next0 listOps listOps j).1 ∧ Mid (Join.next0 listOps listOps j).1 ∧
+            mu (Join.next0 listOps listOps j).1 < mu j ∧
+            live (out j) = live (out (Join.next0 listOps listOps j).1)) := by
+        rcases hm with hc | hg
+        · have := next0_cur j hw hc
+          refine ⟨fun hf => ⟨(this.1 hf).1, ?_⟩, fun ht => ?_⟩
+          · rw [(this.1 hf).2, hv, live_cons_empty]; rfl
+          · obtain ⟨a, b, c, d⟩ := this.2 ht
+            exact ⟨a, b, c, by rw [d, hv, live_cons_empty]⟩
+        · have := next0_ghost j hw hg
+          refine ⟨fun hf => ⟨(this.2.1 hf).1, ?_⟩, fun ht => ?_⟩
+          · rw [(this.2.1 hf).2]; rfl
+          · obtain ⟨a, b, c, d⟩ := this.2.2 ht
+            exact ⟨a, b, c, by rw [d]⟩
+      cases hr : (Join.next0 listOps listOps j).2 with
+      | false =>
+        simp only [Bool.false_eq_true, if_false]
+        exact ⟨fun h => (by cases h), fun _ => hstep.1 hr⟩
+      | true =>
+        simp only [if_true]
+        obtain ⟨a, b, c, d⟩ := hstep.2 hr
+        have := ih _ a b (by omega)
+        refine ⟨fun ht => ?_, fun hf => ?_⟩
+        · obtain ⟨w, cu, nv, lv, m⟩ := this.1 ht
+          exact ⟨w, cu, nv, by rw [d, lv], by omega⟩
+        · obtain ⟨dn, lv⟩ := this.2 hf
+          exact ⟨dn, by rw [d, lv]⟩
+
+
+/-! ### merge is sorted and is the layered lookup -/
+
+theorem mem_merge {a b : Entries} {x : Key × Val} (h : x ∈ merge a b) : x ∈ a ∨ x ∈ b := by
+  fun_induction merge a b with
+  | case1 b => exact .inr h
+  | case2 a ra => exact .inl h
+  | case3 a ra b rb hc ih =>
+    simp only [List.mem_cons] at h ⊢
+    rcases h with h | h
+    · exact .inl (.inl h)
+    · rcases ih h with h | h
+      · exact .inl (.inr h)
+      · simp only [List.mem_cons] at h; exact .inr h
+  | case4 a ra b rb hc ih =>
+    simp only [List.mem_cons] at h ⊢
+    rcases h with h | h
+    · exact .inl (.inl h)
+    · rcases ih h with h | h
+      · exact .inl (.inr h)
+      · exact .inr (.inr h)
+  | case5 a ra b rb hc ih =>
+    simp only [List.mem_cons] at h ⊢
+    rcases h with h | h
+    · exact .inr (.inl h)
+    · rcases ih h with h | h
+      · simp only [List.mem_cons] at h; exact .inl h
+      · exact .inr (.inr h)
+
+theorem merge_sorted {a b : Entries} (ha : Sorted a) (hb : Sorted b) : Sorted (merge a b) := by
+  fun_induction merge a b with
+  | case1 b => exact hb
+  | case2 a ra => exact ha
+  | case3 a ra b rb hc ih =>
+    have ⟨a1, a2⟩ := sorted_cons.mp ha
+    have ⟨b1, b2⟩ := sorted_cons.mp hb
+    refine sorted_cons.mpr ⟨?_, ih a2 hb⟩
+    intro x hx
+    rcases mem_merge hx with h | h
+    · exact a1 x h
+    · simp only [List.mem_cons] at h
+      rcases h with rfl | h
+      · exact ltB_iff.mpr hc
+      · exact ltB_trans (ltB_iff.mpr hc) (b1 x h)
+  | case4 a ra b rb hc ih =>
+    have ⟨a1, a2⟩ := sorted_cons.mp ha
+    have ⟨b1, b2⟩ := sorted_cons.mp hb
+    have hk := cmpB_eq_iff.mp hc
+    refine sorted_cons.mpr ⟨?_, ih a2 b2⟩
+    intro x hx
+    rcases mem_merge hx with h | h
+    · exact a1 x h
+    · rw [hk]; exact b1 x h
+  | case5 a ra b rb hc ih =>
+    have ⟨a1, a2⟩ := sorted_cons.mp ha
+    have ⟨b1, b2⟩ := sorted_cons.mp hb
+    have hlt := ltB_iff.mpr (cmpB_gt_iff_lt.mp hc)
+    refine sorted_cons.mpr ⟨?_, ih ha b2⟩
+    intro x hx
+    rcases mem_merge hx with h | h
+    · simp only [List.mem_cons] at h
+      rcases h with rfl | h
+      · exact hlt
+      · exact ltB_trans hlt (a1 x h)
+    · exact b1 x h
+
+/-- Point reads of the merged stream: the newer stream answers if it knows the key, else the older one. -/
+theorem lookup_merge {a b : Entries} (ha : Sorted a) (hb : Sorted b) (k : Key) :
+    lookup k (merge a b) = match lookup k a with | some v => some v | none => lookup k b := by
+  fun_induction merge a b with
+  | case1 b => simp [lookup]
+  | case2 a ra => cases h : lookup k (a :: ra) <;> simp [lookup]
+  | case3 a ra b rb hc ih =>
+    have ⟨a1, a2⟩ := sorted_cons.mp ha
+    have ih := ih a2 hb
+    obtain ⟨ka, va⟩ := a; obtain ⟨kb, vb⟩ := b
+    simp only at hc
+    simp only [lookup] at ih ⊢
+    cases h : cmpB k ka with
+    | lt => simp [cmpB_lt_trans h hc]
+    | eq => rfl
+    | gt => simp only; rw [ih]
+  | case4 a ra b rb hc ih =>
+    have ⟨a1, a2⟩ := sorted_cons.mp ha
+    have ⟨b1, b2⟩ := sorted_cons.mp hb
+    have ih := ih a2 b2
+    obtain ⟨ka, va⟩ := a; obtain ⟨kb, vb⟩ := b
+    simp only at hc
+    have hk := cmpB_eq_iff.mp hc; subst hk
+    simp only [lookup] at ih ⊢
+    cases h : cmpB k ka with
+    | lt => rfl
+    | eq => rfl
+    | gt => simp only; rw [ih]
+  | case5 a ra b rb hc ih =>
+    have ⟨b1, b2⟩ := sorted_cons.mp hb
+    have ih := ih ha b2
+    obtain ⟨ka, va⟩ := a; obtain ⟨kb, vb⟩ := b
+    simp only at hc
+    have hlt := cmpB_gt_iff_lt.mp hc
+    simp only [lookup] at ih ⊢
+    cases h : cmpB k kb with
+    | lt => simp [cmpB_lt_trans h hlt]
+    | eq =>
+      have hk := cmpB_eq_iff.mp h; subst hk
+      simp [hlt]
+    | gt =>
+      simp only; rw [ih]
+
+
+/-! ### The join over list cursors is a cursor over the live merge -/
+
+/-- Externally visible states of the join (after `First`/`Next` returned): either positioned on an entry with
+a non-empty value, with the remaining output `live (merge mem back)`, or finished. -/
+def LR (N : Nat) (j : LJ) (l : Entries) : Prop :=
+  WFJ j ∧ mu j ≤ N ∧ ((Cur j ∧ j.value ≠ [] ∧ l = live (out j)) ∨ (DoneSt j ∧ l = []))
+
+theorem live_out_cur (j : LJ) (hc : Cur j) (hv : j.value ≠ []) :
+    ∃ t, out j = (j.key, j.value) :: t ∧ live (out j) = (j.key, j.value) :: live t := by
+  obtain ⟨t, ht⟩ := cur_out_head j hc
+  exact ⟨t, ht, by rw [ht, live_cons_live _ _ _ hv]⟩
+
+theorem first0_spec (la lb : Entries) (ha : Sorted la) (hb : Sorted lb) :
+    let j₀ : LJ := { mem := la, back := lb }
+    ((Join.first0 listOps listOps j₀).2 = false → DoneSt (Join.first0 listOps listOps j₀).1 ∧ la = [] ∧ lb = []) ∧
+    ((Join.first0 listOps listOps j₀).2 = true →
+      WFJ (Join.first0 listOps listOps j₀).1 ∧ Cur (Join.first0 listOps listOps j₀).1 ∧
+      mu (Join.first0 listOps listOps j₀).1 = la.length + lb.length + 2 ∧
+      out (Join.first0 listOps listOps j₀).1 = merge la lb) := by
+  intro j₀
+  cases lb with
+  | nil =>
+    cases la with
+    | nil => simp [j₀, Join.first0, listOps, DoneSt]
+    | cons a la' =>
+      simp only [j₀, Join.first0, listOps, List.isEmpty_nil, Bool.not_true, Bool.false_eq_true, if_false,
+        List.isEmpty_cons, Bool.not_false, if_true]
+      refine ⟨by simp, fun _ => ⟨⟨by simp, by simp, ha, hb⟩, ?_, by simp [mu], rfl⟩⟩
+      exact ⟨a, la', rfl, rfl, rfl, by simp⟩
+  | cons b lb' =>
+    cases la with
+    | nil =>
+      simp only [j₀, Join.first0, listOps, List.isEmpty_cons, Bool.not_false, if_true, List.isEmpty_nil, Bool.not_true]
+      refine ⟨by simp, fun _ => ⟨⟨by simp, by simp, ha, hb⟩, ?_, by simp [mu], rfl⟩⟩
+      exact ⟨b, lb', rfl, rfl, rfl, by simp⟩
+    | cons a la' =>
+      simp only [j₀, Join.first0, listOps, List.isEmpty_cons, Bool.not_false, if_true, Bool.not_true,
+        Bool.false_eq_true, if_false, headKey, headVal]
+      cases hc : cmpB a.1 b.1 with
+      | lt =>
+        refine ⟨by simp, fun _ => ⟨⟨by simp, by simp, ha, hb⟩, ?_, by simp [mu], rfl⟩⟩
+        refine ⟨a, la', rfl, rfl, rfl, ?_⟩
+        intro x hx
+        simp only [List.mem_cons] at hx
+        rcases hx with rfl | hx
+        · exact ltB_iff.mpr hc
+        · exact ltB_trans (ltB_iff.mpr hc) ((sorted_cons.mp hb).1 x hx)
+      | eq =>
+        refine ⟨by simp, fun _ => ⟨⟨by simp, by simp, ha, hb⟩, ?_, by simp [mu], rfl⟩⟩
+        have hk := cmpB_eq_iff.mp hc
+        refine ⟨a, la', b.2, lb', rfl, ?_, rfl, rfl⟩
+        show b :: lb' = (a.1, b.2) :: lb'
+        rw [hk]
+      | gt =>
+        refine ⟨by simp, fun _ => ⟨⟨by simp, by simp, ha, hb⟩, ?_, by simp [mu], rfl⟩⟩
+        refine ⟨b, lb', rfl, rfl, rfl, ?_⟩
+        intro x hx
+        have hlt := ltB_iff.mpr (cmpB_gt_iff_lt.mp hc)
+        simp only [List.mem_cons] at hx
+        rcases hx with rfl | hx
+        · exact hlt
+        · exact ltB_trans hlt ((sorted_cons.mp ha).1 x hx)
+
+theorem live_nil_iff_head {j : LJ} (hc : Cur j) (hv : j.value ≠ []) : live (out j) ≠ [] := by
+  obtain ⟨t, _, h⟩ := live_out_cur j hc hv
+  rw [h]; simp
+
+/-- After a successful internal step followed by the skip loop we are in an external state. -/
+theorem skip_to_LR (N : Nat) (hN : 2 ≤ N) (j : LJ) (hw : WFJ j) (hm : Mid j) (hn : mu j ≤ N) :
+    LR N (Join.skip listOps listOps N j).1 (live (out j)) ∧
+    (Join.skip listOps listOps N j).2 = !(live (out j)).isEmpty := by
+  have hs := skip_spec N j hw hm hn
+  cases hr : (Join.skip listOps listOps N j).2 with
+  | true =>
+    obtain ⟨w, c, v, l, m⟩ := hs.1 hr
+    have hne := live_nil_iff_head c v
+    refine ⟨⟨w, by omega, .inl ⟨c, v, l⟩⟩, ?_⟩
+    rw [l]; cases h : live (out (Join.skip listOps listOps N j).1) with
+    | nil => exact absurd h hne
+    | cons _ _ => rfl
+  | false =>
+    obtain ⟨d, l⟩ := hs.2 hr
+    refine ⟨⟨?_, ?_, .inr ⟨d, l⟩⟩, by rw [l]; rfl⟩
+    · obtain ⟨d1, d2, _⟩ := d
+      exact ⟨fun _ => d1, fun _ => d2, d1 ▸ Sorted.nil, d2 ▸ Sorted.nil⟩
+    · obtain ⟨d1, d2, _⟩ := d
+      simp only [mu, d1, d2, List.length_nil]
+      split <;> split <;> omega
+
+theorem done_wf {j : LJ} (d : DoneSt j) : WFJ j := by
+  obtain ⟨d1, d2, _⟩ := d
+  exact ⟨fun _ => d1, fun _ => d2, d1 ▸ Sorted.nil, d2 ▸ Sorted.nil⟩
+
+theorem done_mu {j : LJ} (d : DoneSt j) : mu j ≤ 2 := by
+  obtain ⟨d1, d2, _⟩ := d
+  simp only [mu, d1, d2, List.length_nil]
+  split <;> split <;> omega
+
+
+section
+variable {α β : Type} (A : Ops α) (B : Ops β)
+theorem Next_of_false (N : Nat) (j : Join α β) (h : (Join.next0 A B j).2 = false) :
+    Join.Next A B N j = ((Join.next0 A B j).1, false) := by simp [Join.Next, h]
+theorem Next_of_true (N : Nat) (j : Join α β) (h : (Join.next0 A B j).2 = true) :
+    Join.Next A B N j = Join.skip A B N (Join.next0 A B j).1 := by simp [Join.Next, h]
+theorem First_of_false (N : Nat) (j : Join α β) (h : (Join.first0 A B j).2 = false) :
+    Join.First A B N j = ((Join.first0 A B j).1, false) := by simp [Join.First, h]
+theorem First_of_true (N : Nat) (j : Join α β) (h : (Join.first0 A B j).2 = true) :
+    Join.First A B N j = Join.skip A B N (Join.first0 A B j).1 := by simp [Join.First, h]
+end
+
+theorem live_sorted {l : Entries} (h : Sorted l) : Sorted (live l) := Sorted.sublist List.filter_sublist h
+
+/-- `Next` from a finished join stays finished and returns false (also from the state in which `First`
+found both sides empty, where neither flag was ever set). -/
+theorem next_done (N : Nat) (hN : 2 ≤ N) (j : LJ) (d : DoneSt j) :
+    DoneSt (Join.Next listOps listOps N j).1 ∧ (Join.Next listOps listOps N j).2 = false := by
+  obtain ⟨mem, back, key, value, origin, nme, nbe⟩ := j
+  obtain ⟨d1, d2, d3, d4, d5⟩ := d
+  simp only at d1 d2 d3 d4 d5
+  subst d1; subst d2; subst d3; subst d4
+  rcases d5 with ⟨h1, h2⟩ | ⟨h1, h2, h3⟩
+  · subst h1; subst h2
+    simp [Join.Next, Join.next0, Join.advance, Join.choose, DoneSt]
+  · subst h1; subst h2; subst h3
+    obtain ⟨n, rfl⟩ : ∃ n, N = n + 1 := ⟨N - 1, by omega⟩
+    simp [Join.Next, Join.next0, Join.advance, Join.choose, Join.skip, listOps, headKey, headVal, DoneSt]
+
+theorem listJoin_isCursor (N : Nat) (hN : 2 ≤ N) : IsCursor (Join.ops listOps listOps N) (LR N) where
+  key := by
+    rintro j l ⟨_, _, ⟨c, v, rfl⟩ | ⟨d, rfl⟩⟩
+    · obtain ⟨t, _, h⟩ := live_out_cur j c v
+      rw [h]; rfl
+    · exact d.2.2.1
+  value := by
+    rintro j l ⟨_, _, ⟨c, v, rfl⟩ | ⟨d, rfl⟩⟩
+    · obtain ⟨t, _, h⟩ := live_out_cur j c v
+      rw [h]; rfl
+    · exact d.2.2.2.1
+  sorted := by
+    rintro j l ⟨w, _, ⟨_, _, rfl⟩ | ⟨_, rfl⟩⟩
+    · exact live_sorted (merge_sorted w.sm w.sb)
+    · exact Sorted.nil
+  next := by
+    rintro j l ⟨w, hmu, ⟨c, v, rfl⟩ | ⟨d, rfl⟩⟩
+    · obtain ⟨t, ht, hl⟩ := live_out_cur j c v
+      rw [hl, List.tail_cons]
+      have hn := next0_cur j w c
+      show LR N (Join.Next listOps listOps N j).1 (live t) ∧ (Join.Next listOps listOps N j).2 = !(live t).isEmpty
+      cases hr : (Join.next0 listOps listOps j).2 with
+      | false =>
+        obtain ⟨dn, ho⟩ := hn.1 hr
+        rw [Next_of_false _ _ _ _ hr]
+        have : t = [] := by rw [ht] at ho; simpa using ho
+        subst this
+        exact ⟨⟨done_wf dn, Nat.le_trans (done_mu dn) hN, .inr ⟨dn, rfl⟩⟩, rfl⟩
+      | true =>
+        obtain ⟨w1, m1, mu1, ho⟩ := hn.2 hr
+        rw [Next_of_true _ _ _ _ hr]
+        have : t = out (Join.next0 listOps listOps j).1 := by rw [ht] at ho; simpa using ho
+        rw [this]
+        exact skip_to_LR N hN _ w1 m1 (by omega)
+    · have := next_done N hN j d
+      show LR N (Join.Next listOps listOps N j).1 [] ∧ (Join.Next listOps listOps N j).2 = false
+      refine ⟨⟨done_wf this.1, by have := done_mu this.1; omega, .inr ⟨this.1, rfl⟩⟩, this.2⟩
+
+theorem listJoin_starts (N : Nat) (la lb : Entries) (ha : Sorted la) (hb : Sorted lb)
+    (hN : la.length + lb.length + 2 ≤ N) :
+    Starts (Join.ops listOps listOps N) (LR N) { mem := la, back := lb } (liveMerge la lb) := by
+  have hf := first0_spec la lb ha hb
+  simp only at hf
+  show LR N (Join.First listOps listOps N _).1 _ ∧ (Join.First listOps listOps N _).2 = _
+  cases hr : (Join.first0 listOps listOps ({ mem := la, back := lb } : LJ)).2 with
+  | false =>
+    obtain ⟨dn, h1, h2⟩ := hf.1 hr
+    subst h1; subst h2
+    rw [First_of_false _ _ _ _ hr]
+    exact ⟨⟨done_wf dn, Nat.le_trans (done_mu dn) (by omega), .inr ⟨dn, by simp [liveMerge, live, merge]⟩⟩,
+      by simp [liveMerge, live, merge]⟩
+  | true =>
+    obtain ⟨w, c, m, o⟩ := hf.2 hr
+    rw [First_of_true _ _ _ _ hr]
+    have := skip_to_LR N (by omega) _ w (.inl c) (by omega)
+    rw [o] at this
+    exact this
+
+
+/-! ### Lifting to arbitrary cursors by simulation -/
+
+section
+variable {α β : Type} {A : Ops α} {B : Ops β} {RA : α → Entries → Prop} {RB : β → Entries → Prop}
+
+/-- The join over iterators `A`, `B` is in the same control state as the join over the lists their cursors
+stand for. -/
+structure Sim (RA : α → Entries → Prop) (RB : β → Entries → Prop) (j : Join α β) (t : LJ) : Prop where
+  mem : RA j.mem t.mem
+  back : RB j.back t.back
+  key : j.key = t.key
+  value : j.value = t.value
+  origin : j.origin = t.origin
+  nme : j.nextMemEnd = t.nextMemEnd
+  nbe : j.nextBackEnd = t.nextBackEnd
+
+theorem sim_advance (hA : IsCursor A RA) (hB : IsCursor B RB) {j : Join α β} {t : LJ} (h : Sim RA RB j t) :
+    Sim RA RB (Join.advance A B j) (Join.advance listOps listOps t) := by
+  obtain ⟨jm, jb, jk, jv, jo, jnm, jnb⟩ := j
+  obtain ⟨tm, tb, tk, tv, to, tnm, tnb⟩ := t
+  obtain ⟨h1, h2, h3, h4, h5, h6, h7⟩ := h
+  simp only at h1 h2 h3 h4 h5 h6 h7
+  subst h3; subst h4; subst h5; subst h6; subst h7
+  have hm := hA.next jm tm h1
+  have hb := hB.next jb tb h2
+  simp only [Join.advance]
+  by_cases c1 : (jo = .mem ∨ jo = .both) ∧ jnm = false
+  · by_cases c2 : (jo = .back ∨ jo = .both) ∧ jnb = false
+    · rw [if_pos c1, if_pos c1, if_pos c2, if_pos c2]
+      exact ⟨hm.1, hb.1, rfl, rfl, rfl, by simp [hm.2, listOps], by simp [hb.2, listOps]⟩
+    · rw [if_pos c1, if_pos c1, if_neg c2, if_neg c2]
+      exact ⟨hm.1, h2, rfl, rfl, rfl, by simp [hm.2, listOps], rfl⟩
+  · by_cases c2 : (jo = .back ∨ jo = .both) ∧ jnb = false
+    · rw [if_neg c1, if_neg c1, if_pos c2, if_pos c2]
+      exact ⟨h1, hb.1, rfl, rfl, rfl, rfl, by simp [hb.2, listOps]⟩
+    · rw [if_neg c1, if_neg c1, if_neg c2, if_neg c2]
+      exact ⟨h1, h2, rfl, rfl, rfl, rfl, rfl⟩
+
+theorem sim_choose (hA : IsCursor A RA) (hB : IsCursor B RB) {j : Join α β} {t : LJ} (h : Sim RA RB j t) :
+    Sim RA RB (Join.choose A B j).1 (Join.choose listOps listOps t).1 ∧
+    (Join.choose A B j).2 = (Join.choose listOps listOps t).2 := by
+  obtain ⟨jm, jb, jk, jv, jo, jnm, jnb⟩ := j
+  obtain ⟨tm, tb, tk, tv, to, tnm, tnb⟩ := t
+  obtain ⟨h1, h2, h3, h4, h5, h6, h7⟩ := h
+  simp only at h1 h2 h3 h4 h5 h6 h7
+  subst h3; subst h4; subst h5; subst h6; subst h7
+  have km := hA.key jm tm h1
+  have vm := hA.value jm tm h1
+  have kb := hB.key jb tb h2
+  have vb := hB.value jb tb h2
+  simp only [Join.choose, km, vm, kb, vb, listOps]
+  cases jnb with
+  | true =>
+    cases jnm with
+    | true => exact ⟨⟨h1, h2, rfl, rfl, rfl, rfl, rfl⟩, rfl⟩
+    | false => exact ⟨⟨h1, h2, rfl, rfl, rfl, rfl, rfl⟩, rfl⟩
+  | false =>
+    cases jnm with
+    | true => exact ⟨⟨h1, h2, rfl, rfl, rfl, rfl, rfl⟩, rfl⟩
+    | false =>
+      simp only [Bool.false_eq_true, if_false]
+      cases cmpB (headKey tm) (headKey tb) with
+      | lt => exact ⟨⟨h1, h2, rfl, rfl, rfl, rfl, rfl⟩, rfl⟩
+      | eq => exact ⟨⟨h1, h2, rfl, rfl, rfl, rfl, rfl⟩, rfl⟩
+      | gt => exact ⟨⟨h1, h2, rfl, rfl, rfl, rfl, rfl⟩, rfl⟩
+
+theorem sim_next0 (hA : IsCursor A RA) (hB : IsCursor B RB) {j : Join α β} {t : LJ} (h : Sim RA RB j t) :
+    Sim RA RB (Join.next0 A B j).1 (Join.next0 listOps listOps t).1 ∧
+    (Join.next0 A B j).2 = (Join.next0 listOps listOps t).2 :=
+  sim_choose hA hB (sim_advance hA hB h)
+
+theorem sim_skip (hA : IsCursor A RA) (hB : IsCursor B RB) (n : Nat) {j : Join α β} {t : LJ} (h : Sim RA RB j t) :
+    Sim RA RB (Join.skip A B n j).1 (Join.skip listOps listOps n t).1 ∧
+    (Join.skip A B n j).2 = (Join.skip listOps listOps n t).2 := by
+  induction n generalizing j t with
+  | zero => exact ⟨h, rfl⟩
+  | succ n ih =>
+    unfold Join.skip
+    rw [h.value]
+    cases hv : t.value.isEmpty with
+    | false => simp only [Bool.false_eq_true, if_false]; exact ⟨h, by simp⟩
+    | true =>
+      simp only [if_true]
+      have hs := sim_next0 hA hB h
+      rw [hs.2]
+      cases hr : (Join.next0 listOps listOps t).2 with
+      | false => simp only [Bool.false_eq_true, if_false]; exact ⟨hs.1, by simp⟩
+      | true => simp only [if_true]; exact ih hs.1
+
+theorem sim_Next (hA : IsCursor A RA) (hB : IsCursor B RB) (N : Nat) {j : Join α β} {t : LJ} (h : Sim RA RB j t) :
+    Sim RA RB (Join.Next A B N j).1 (Join.Next listOps listOps N t).1 ∧
+    (Join.Next A B N j).2 = (Join.Next listOps listOps N t).2 := by
+  have hs := sim_next0 hA hB h
+  cases hr : (Join.next0 listOps listOps t).2 with
+  | false =>
+    rw [Next_of_false _ _ _ _ hr, Next_of_false _ _ _ _ (hs.2.trans hr)]
+    exact ⟨hs.1, rfl⟩
+  | true =>
+    rw [Next_of_true _ _ _ _ hr, Next_of_true _ _ _ _ (hs.2.trans hr)]
+    exact sim_skip hA hB N hs.1
+
+theorem sim_first0 (hA : IsCursor A RA) (hB : IsCursor B RB) (a₀ : α) (b₀ : β) (la lb : Entries)
+    (sa : Starts A RA a₀ la) (sb : Starts B RB b₀ lb) :
+    Sim RA RB (Join.first0 A B { mem := a₀, back := b₀ }).1 (Join.first0 listOps listOps { mem := la, back := lb }).1 ∧
+    (Join.first0 A B { mem := a₀, back := b₀ }).2 = (Join.first0 listOps listOps { mem := la, back := lb }).2 := by
+  have km := hA.key _ _ sa.1
+  have vm := hA.value _ _ sa.1
+  have kb := hB.key _ _ sb.1
+  have vb := hB.value _ _ sb.1
+  have ra := sa.1
+  have rb := sb.1
+  have fa := sa.2
+  have fb := sb.2
+  clear sa sb
+  unfold Join.first0
+  simp only [fa, fb, km, vm, kb, vb, listOps]
+  cases lb with
+  | nil =>
+    cases la with
+    | nil => exact ⟨⟨ra, rb, rfl, rfl, rfl, rfl, rfl⟩, by simp⟩
+    | cons a la' => exact ⟨⟨ra, rb, rfl, rfl, rfl, rfl, rfl⟩, by simp⟩
+  | cons b lb' =>
+    cases la with
+    | nil => exact ⟨⟨ra, rb, rfl, rfl, rfl, rfl, rfl⟩, by simp⟩
+    | cons a la' =>
+      simp only [List.isEmpty_cons, Bool.not_false, if_true, Bool.not_true, Bool.false_eq_true, if_false]
+      cases cmpB (headKey (a :: la')) (headKey (b :: lb')) with
+      | lt => exact ⟨⟨ra, rb, rfl, rfl, rfl, rfl, rfl⟩, rfl⟩
+      | eq => exact ⟨⟨ra, rb, rfl, rfl, rfl, rfl, rfl⟩, rfl⟩
+      | gt => exact ⟨⟨ra, rb, rfl, rfl, rfl, rfl, rfl⟩, rfl⟩
+
+/-- The relation under which a join over arbitrary cursors is itself a cursor. -/
+def JoinR (RA : α → Entries → Prop) (RB : β → Entries → Prop) (N : Nat) (j : Join α β) (l : Entries) : Prop :=
+  ∃ t : LJ, Sim RA RB j t ∧ LR N t l
+
+/-- **JoinIter is a cursor over the live merge.** If both inputs are cursors (over sorted streams), so is their
+join — hence joins nest (CacheDB over OverlayDB over LevelDB). -/
+theorem join_isCursor (hA : IsCursor A RA) (hB : IsCursor B RB) (N : Nat) (hN : 2 ≤ N) :
+    IsCursor (Join.ops A B N) (JoinR RA RB N) where
+  key := by
+    rintro j l ⟨t, hs, hl⟩
+    exact hs.key.trans ((listJoin_isCursor N hN).key t l hl)
+  value := by
+    rintro j l ⟨t, hs, hl⟩
+    exact hs.value.trans ((listJoin_isCursor N hN).value t l hl)
+  sorted := by
+    rintro j l ⟨t, _, hl⟩
+    exact (listJoin_isCursor N hN).sorted t l hl
+  next := by
+    rintro j l ⟨t, hs, hl⟩
+    have h1 := sim_Next hA hB N hs
+    have h2 := (listJoin_isCursor N hN).next t l hl
+    exact ⟨⟨_, h1.1, h2.1⟩, h1.2.trans h2.2⟩
+
+theorem join_starts (hA : IsCursor A RA) (hB : IsCursor B RB) (N : Nat) (a₀ : α) (b₀ : β) (la lb : Entries)
+    (sa : Starts A RA a₀ la) (sb : Starts B RB b₀ lb) (hN : la.length + lb.length + 2 ≤ N) :
+    Starts (Join.ops A B N) (JoinR RA RB N) { mem := a₀, back := b₀ } (liveMerge la lb) := by
+  have hl := listJoin_starts N la lb (hA.sorted _ _ sa.1) (hB.sorted _ _ sb.1) hN
+  have hf := sim_first0 hA hB a₀ b₀ la lb sa sb
+  show JoinR RA RB N (Join.First A B N _).1 _ ∧ (Join.First A B N _).2 = _
+  have hl' : LR N (Join.First listOps listOps N { mem := la, back := lb }).1 (liveMerge la lb) ∧
+      (Join.First listOps listOps N { mem := la, back := lb }).2 = !(liveMerge la lb).isEmpty := hl
+  cases hr : (Join.first0 listOps listOps ({ mem := la, back := lb } : LJ)).2 with
+  | false =>
+    rw [First_of_false _ _ _ _ hr] at hl'
+    rw [First_of_false _ _ _ _ (hf.2.trans hr)]
+    exact ⟨⟨_, hf.1, hl'.1⟩, hl'.2⟩
+  | true =>
+    rw [First_of_true _ _ _ _ hr] at hl'
+    rw [First_of_true _ _ _ _ (hf.2.trans hr)]
+    have hs := sim_skip hA hB N hf.1
+    exact ⟨⟨_, hs.1, hl'.1⟩, hs.2.trans hl'.2⟩
+
+end
+
 end Poly.Model.KV
